@@ -306,8 +306,18 @@ theorem idleHandle'_nc (e : El) (s : St) (h : NC s) : NCout (idleHandle' s e).2 
 theorem idleHandle_nc (e : El) (s : St) (h : NC s) : NCout (idleHandle s e).2 ∧ NC (idleHandle s e).1 := by
   unfold idleHandle
   split
-  · exact reject_nc s h
-  · exact idleHandle'_nc e s h
+  · exact sendStanza_nc _ s h
+  · split
+    · exact reject_nc s h
+    · exact ⟨NCout.cons (sig_nc _) NCout.nil, nc_upd h rfl rfl⟩
+  · split
+    · exact ⟨NCout.cons (send_nc h _) NCout.nil, h⟩
+    · exact ⟨NCout.nil, h⟩
+  · exact ⟨NCout.nil, h⟩
+  · unfold idleGuarded
+    split
+    · exact reject_nc s h
+    · exact idleHandle'_nc _ s h
 
 theorem starttlsHandle_nc (e : El) (s : St) (h : NC s) : NCout (starttlsHandle s e).2 ∧ NC (starttlsHandle s e).1 := by
   unfold starttlsHandle
@@ -428,8 +438,8 @@ theorem dispatch_nc (e : El) (s : St) (h : NC s) : NCout (dispatch s e).2 ∧ NC
   split
   · exact idleHandle_nc e s h
   · exact starttlsHandle_nc e s h
-  · exact nonSaslHandle_nc e s h
-  · exact nonSaslResultHandle_nc e s h
+  · exact nonSaslHandle_nc _ s h
+  · exact nonSaslResultHandle_nc _ s h
   · exact saslHandle_nc _ _ e s h
   · exact reject_nc s h
   · exact sasl2Handle_nc _ _ e s h
@@ -512,6 +522,8 @@ theorem handleStarttls_cfg (s : St) (f : Features) : ∀ r, handleStarttls s f =
 @[simp] theorem onSmResumed_cfg (s : St) : (onSmResumed s).1.cfg = s.cfg := rfl
 @[simp] theorem idleHandle'_cfg (s : St) (e : El) : (idleHandle' s e).1.cfg = s.cfg := by
   unfold idleHandle'; cfg_crush
+@[simp] theorem idleGuarded_cfg (s : St) (e : El) : (idleGuarded s e).1.cfg = s.cfg := by
+  unfold idleGuarded; cfg_crush
 @[simp] theorem idleHandle_cfg (s : St) (e : El) : (idleHandle s e).1.cfg = s.cfg := by
   unfold idleHandle; cfg_crush
 @[simp] theorem starttlsHandle_cfg (s : St) (e : El) : (starttlsHandle s e).1.cfg = s.cfg := by
@@ -550,6 +562,15 @@ def PreTls (s : St) : Prop := s.listener = .idle ∨ s.listener = .starttls
 
 /-- invariant: either nothing can reach the wire in clear, or negotiation has not gone past STARTTLS -/
 def Inv (s : St) : Prop := NC s ∨ PreTls s
+
+/-- **Named hypothesis "nothing slips past the stanza guard before encryption"**: while the link is connected and unencrypted
+the server sends neither an IQ request OUTSIDE jabber:client that one of the client's extensions answers (jabber:iq:version,
+disco#info in a foreign / empty / jabber:server namespace) nor a stream-management `<r/>` — both are processed by the idle
+listener although the stanza guard of fa0779c only looks at jabber:client elements -/
+def noEarlyBypass (s : St) : Ev → Prop
+  | .recv (.xiq .getKnown) => NC s
+  | .recv .smR => NC s
+  | _ => True
 
 /-- **Scope of the property (application side)**: the application itself does not send requests over an unencrypted link and
 calls `connectToServer` only while disconnected (the property quantifies over servers, not over applications) -/
@@ -607,39 +628,56 @@ theorem handleStarttls_required (s : St) (f : Features) (hreq : s.cfg.tls = .req
     · simp [ha, hl]
 
 theorem idle_clear (s : St) (e : El) (hreq : s.cfg.tls = .required) (hc : s.conn = .connected)
-    (he : s.encrypted = false) (hl : s.listener = .idle) :
+    (he : s.encrypted = false) (hl : s.listener = .idle) (h2 : noEarlyBypass s (.recv e)) :
     (∀ o ∈ (idleHandle s e).2, o.clearOk) ∧ Inv (idleHandle s e).1 := by
+  have hnnc : ¬ NC s := by intro h; have := h hc; simp [he] at this
   have hsame : Inv s := Or.inr (Or.inl hl)
   unfold idleHandle
   split
-  · have := reject_connected s hc
-    exact ⟨this.1, Or.inl this.2⟩
-  · rename_i hns
-    have hst : e.isStanza = false := by
-      cases hb : e.isStanza
-      · rfl
-      · exact absurd ⟨hb, by simp [he], hreq⟩ hns
-    unfold idleHandle'
-    split
-    · -- features
-      rename_i f
-      unfold handleFeatures
-      rcases handleStarttls_required s f hreq he with h | h
-      · rw [h]
-        have := disconnectFromHost_connected s hc
-        exact ⟨this.1, Or.inl this.2⟩
-      · rw [h]
-        refine ⟨?_, Or.inr (Or.inr rfl)⟩
-        intro o ho
-        simp only [List.mem_singleton] at ho
-        subst ho
-        exact send_preTls_ok s _ rfl
-    · have := socketClose_connected { s with redirect := true } hc
+  · exact absurd h2 hnnc
+  · split
+    · have := reject_connected s hc
       exact ⟨this.1, Or.inl this.2⟩
-    · exact ⟨sig_ok _, hsame⟩
-    all_goals first
-      | (simp [El.isStanza] at hst; done)
-      | (have := reject_connected s hc; exact ⟨this.1, Or.inl this.2⟩)
+    · exact ⟨sig_ok _, Or.inr (Or.inl hl)⟩
+  · exact absurd h2 hnnc
+  · exact ⟨nil_ok, hsame⟩
+  · unfold idleGuarded
+    split
+    · have := reject_connected s hc
+      exact ⟨this.1, Or.inl this.2⟩
+    · rename_i hns
+      have hst : e.isStanza = false := by
+        cases hb : e.isStanza
+        · rfl
+        · exact absurd ⟨hb, by simp [he], hreq⟩ hns
+      unfold idleHandle'
+      split
+      · -- features
+        rename_i f _ _ _ _
+        unfold handleFeatures
+        rcases handleStarttls_required s f hreq he with h | h
+        · rw [h]
+          have := disconnectFromHost_connected s hc
+          exact ⟨this.1, Or.inl this.2⟩
+        · rw [h]
+          refine ⟨?_, Or.inr (Or.inr rfl)⟩
+          intro o ho
+          simp only [List.mem_singleton] at ho
+          subst ho
+          exact send_preTls_ok s _ rfl
+      · have := socketClose_connected { s with redirect := true } hc
+        exact ⟨this.1, Or.inl this.2⟩
+      · exact ⟨sig_ok _, hsame⟩
+      all_goals first
+        | (simp [El.isStanza] at hst; done)
+        | (have := reject_connected s hc; exact ⟨this.1, Or.inl this.2⟩)
+
+theorem disconnect_any (s : St) : (∀ o ∈ (disconnectFromHost s).2, o.clearOk) ∧ NC (disconnectFromHost s).1 := by
+  by_cases hc : s.conn = .connected
+  · exact disconnectFromHost_connected s hc
+  · have hn : NC s := nc_of_not_connected hc
+    have := disconnectFromHost_nc s hn
+    exact ⟨NCout.clearOk this.1, this.2⟩
 
 theorem starttls_clear (s : St) (e : El) (hc : s.conn = .connected) :
     (∀ o ∈ (starttlsHandle s e).2, o.clearOk) ∧ Inv (starttlsHandle s e).1 := by
@@ -653,7 +691,8 @@ theorem starttls_clear (s : St) (e : El) (hc : s.conn = .connected) :
     exact ⟨this.1, Or.inl this.2⟩
 
 /-- one step keeps the invariant and sends nothing but stream open / starttls / stream close in clear -/
-theorem step_safe (s : St) (e : Ev) (hreq : s.cfg.tls = .required) (hinv : Inv s) (h3 : appWaits s e) :
+theorem step_safe (s : St) (e : Ev) (hreq : s.cfg.tls = .required) (hinv : Inv s) (h2 : noEarlyBypass s e)
+    (h3 : appWaits s e) :
     (∀ o ∈ (step s e).2, o.clearOk) ∧ Inv (step s e).1 := by
   by_cases hnc : NC s
   · -- nothing can be clear, except the stream open of a new connection
@@ -687,6 +726,20 @@ theorem step_safe (s : St) (e : Ev) (hreq : s.cfg.tls = .required) (hinv : Inv s
     | sendIq =>
       have := sendIq_nc s hnc
       exact ⟨allOk_of_NCout this.1, Or.inl this.2⟩
+    | recvWhitespace =>
+      simp only [step]
+      split
+      · exact ⟨nil_ok, Or.inl hnc⟩
+      · have := reject_nc s hnc
+        exact ⟨allOk_of_NCout this.1, Or.inl this.2⟩
+    | recvPartial =>
+      simp only [step]
+      split
+      · exact ⟨nil_ok, Or.inl hnc⟩
+      · exact ⟨nil_ok, Or.inl (nc_upd hnc rfl rfl)⟩
+    | closeTail =>
+      have := disconnectFromHost_nc s hnc
+      exact ⟨allOk_of_NCout this.1, Or.inl this.2⟩
   · -- connected and unencrypted
     have hc : s.conn = .connected := by
       by_cases hc : s.conn = .connected
@@ -714,6 +767,20 @@ theorem step_safe (s : St) (e : Ev) (hreq : s.cfg.tls = .required) (hinv : Inv s
       have hd := onSocketDisconnected_down { s with conn := .disconnected } rfl
       exact ⟨allOk_of_NCout hd.1, Or.inl (nc_of_not_connected hd.2)⟩
     | sendIq => exact absurd h3 hnc
+    | recvWhitespace =>
+      simp only [step]
+      split
+      · exact ⟨nil_ok, Or.inr hpre⟩
+      · have := reject_connected s hc
+        exact ⟨this.1, Or.inl this.2⟩
+    | recvPartial =>
+      simp only [step]
+      split
+      · exact ⟨nil_ok, Or.inr hpre⟩
+      · exact ⟨nil_ok, Or.inr hpre⟩
+    | closeTail =>
+      have := disconnect_any s
+      exact ⟨this.1, Or.inl this.2⟩
     | recv el =>
       simp only [step]
       unfold recv
@@ -740,22 +807,23 @@ theorem step_safe (s : St) (e : Ev) (hreq : s.cfg.tls = .required) (hinv : Inv s
             · unfold dispatch
               rcases hpre with hl | hl
               · rw [hl]
-                exact idle_clear s el hreq hc he hl
+                exact idle_clear s el hreq hc he hl h2
               · rw [hl]
                 exact starttls_clear s el hc
 
 /-- the invariant and the property along a whole run -/
-theorem run_safe (evs : List Ev) (s : St) (hreq : s.cfg.tls = .required) (hinv : Inv s) (h3 : Along appWaits s evs) :
+theorem run_safe (evs : List Ev) (s : St) (hreq : s.cfg.tls = .required) (hinv : Inv s) (h2 : Along noEarlyBypass s evs)
+    (h3 : Along appWaits s evs) :
     ∀ o ∈ (run s evs).2, o.clearOk := by
   induction evs generalizing s with
   | nil => intro o ho; cases ho
   | cons e es ih =>
-    have hs := step_safe s e hreq hinv h3.1
+    have hs := step_safe s e hreq hinv h2.1 h3.1
     intro o ho
     simp only [run] at ho
     rcases List.mem_append.mp ho with ho | ho
     · exact hs.1 o ho
-    · exact ih (step s e).1 (by simpa using hreq) hs.2 h3.2 o ho
+    · exact ih (step s e).1 (by simpa using hreq) hs.2 h2.2 h3.2 o ho
 
 theorem init_inv (cfg : Cfg) : Inv (init cfg) := Or.inl (nc_of_not_connected (by simp [init]))
 
@@ -885,8 +953,16 @@ theorem idleHandle_red (s : St) (e : El) (hc : s.conn = .connected) (h : s.redir
     (idleHandle s e).1.redirect = false := by
   unfold idleHandle
   split
-  · exact reject_red s h
-  · exact idleHandle'_red s e hc h
+  · exact sendStanza_red _ _ h
+  · split
+    · exact reject_red s h
+    · exact h
+  · split <;> exact h
+  · exact h
+  · unfold idleGuarded
+    split
+    · exact reject_red s h
+    · exact idleHandle'_red s _ hc h
 theorem starttlsHandle_red (s : St) (e : El) (h : s.redirect = false) : (starttlsHandle s e).1.redirect = false := by
   unfold starttlsHandle
   split
@@ -977,8 +1053,8 @@ theorem dispatch_red (s : St) (e : El) (hc : s.conn = .connected) (h : s.redirec
   split
   · exact idleHandle_red s e hc h
   · exact starttlsHandle_red s e h
-  · exact nonSaslHandle_red s e h
-  · exact nonSaslResultHandle_red s e h
+  · exact nonSaslHandle_red s _ h
+  · exact nonSaslResultHandle_red s _ h
   · exact saslHandle_red s _ _ e h
   · exact reject_red s h
   · exact sasl2Handle_red s _ _ e h
@@ -1020,6 +1096,11 @@ theorem step_red (s : St) (e : Ev) (h : s.redirect = false) : (step s e).1.redir
     · split <;> exact h
   | recv el => exact recv_red s el h
   | sendIq => exact sendIq_red s h
+  | recvWhitespace => simp only [step]; split
+                      · exact h
+                      · exact reject_red s h
+  | recvPartial => simp only [step]; split <;> exact h
+  | closeTail => exact disconnectFromHost_red s h
 theorem run_red (evs : List Ev) (s : St) (h : s.redirect = false) : (run s evs).1.redirect = false := by
   induction evs generalizing s with
   | nil => exact h
@@ -1040,7 +1121,7 @@ theorem tls_unavailable_core (s : St) (f : Features) (hreq : s.cfg.tls = .requir
     · simp [hf]
     · by_cases ha : f.tls = .absent <;> simp [ha, hf]
   have hr : step s (.recv (.features f)) = disconnectFromHost s := by
-    simp only [step, recv, hc, hw, hh, dispatch, hl, idleHandle, El.isStanza, idleHandle', handleFeatures, hst]
+    simp only [step, recv, hc, hw, hh, dispatch, hl, idleHandle, idleGuarded, El.isStanza, idleHandle', handleFeatures, hst]
     simp
   rw [hr]
   simp [disconnectFromHost, socketClose, onSocketDisconnected, closeSession, hc, hred, send, link, he]
